@@ -15,7 +15,13 @@ using namespace vh;
 #ifndef VR_TARGET
 #define VR_TARGET 1
 #endif
-struct Policies { using Threading = VH_THREADING; };
+// events are identified by the Map policy's notion of equivalence, not by ==: here two keys are the same event when they
+// agree modulo 1000 (EV and EV + 1000 are one event, EV + 1 is another)
+struct ModLess { bool operator()(int a, int b) const { return a % 1000 < b % 1000; } };
+struct Policies {
+	using Threading = VH_THREADING;
+	template <typename Key, typename T> using Map = std::map<Key, T, ModLess>;
+};
 
 static long g_liveCb = 0, g_cbDoubleDtor = 0;
 struct CbFn {
@@ -79,6 +85,10 @@ struct World {
 			res("h" + std::to_string(id));
 		}
 		else if(op == "rremove") { if(!has) { res("skip"); return; } res(rems[r]->removeListener(EV, handleOf(c.n(2))) ? "true" : "false"); }
+		// the same event under another, equivalent key: detaches at once and reports it, exactly as `rremove`
+		else if(op == "rremoveeq") { if(!has) { res("skip"); return; } res(rems[r]->removeListener(EV + 1000, handleOf(c.n(2))) ? "true" : "false"); }
+		// another event: nothing is detached, false is reported, and the remover stays responsible for the listener
+		else if(op == "rremoveother") { if(!has) { res("skip"); return; } res(rems[r]->removeListener(EV + 1, handleOf(c.n(2))) ? "true" : "false"); }
 		else if(op == "rremoveheld") {
 			auto hd = handleOf(c.n(3));
 			auto keep = hd.lock();
